@@ -19,6 +19,8 @@ func checkC07(p *Prog, r *Report) {
 	ls := BuildLockset(p, "spine", "model")
 	r.Rule("R1", "the feature-id generator of an entity is invoked only while the generator lock of that entity is held, and only inside NextFeatureId")
 	c07Generator(p, ls, r)
+	// the entity notifications are partial / delete commands built by the filter builders (mechanism: filter construction)
+	r.ImportRules(p, "C18", checkC18, map[string]string{"R6c": "R17"})
 	r.Rule("R2", "every construction of a local feature inside the repository takes its id from NextFeatureId of the entity it is created for")
 	c07Ids(p, r)
 	r.Rule("R3", "on the local feature list, the look-up that decides an insertion and the insertion share one critical section; every insertion is decided by a scan; the scan compares type and role")
